@@ -66,7 +66,7 @@ Definition rres_ok (m : res kind) (o : rres) : bool :=
   | _, _ => false
   end.
 Definition engine_parts (c : ecase) : list bool :=
-  match lookup (ec_name c) builtin_engines with
+  match lookup (ec_name c) (builtin_engines ++ extra_compilers) with
   | None => [false]
   | Some e =>
       [ modes_eqb (e_modes e) (ec_modes c);
